@@ -21,6 +21,7 @@ structure Acct where
   code : Nat := 0                -- 0 = empty code; otherwise an identifier of the code bytes
   size : Nat := 0                -- per-contract storage-size counter (data.Size)
   suicided : Bool := false
+  deleted : Bool := false        -- marked deleted by the end of an earlier transaction of the block (object kept)
   stor : Nat → Nat := fun _ => 0
 
 def Acct.absent : Acct := {}
@@ -61,13 +62,19 @@ def St.push (s : St) (e : Entry) : St := { s with journal := e :: s.journal }
 def createAccount (s : St) (a : Nat) : St :=
   let p := s.acct a
   if p.present then
-    (s.push (.resetObject a p)).setAcct a { present := true, bal := p.bal, size := p.size }
+    (s.push (.resetObject a p)).setAcct a
+      (if p.deleted then { present := true } else { present := true, bal := p.bal, size := p.size })
   else
     (s.push (.createObject a)).setAcct a { present := true }
 
-/-- `GetOrNewStateObject` -/
+/-- what `getStateObject` finds: an object that was not deleted by an earlier transaction -/
+def Acct.live (p : Acct) : Bool := p.present && !p.deleted
+
+/-- `GetOrNewStateObject`: a deleted object is replaced like in `createObject` (`resetObjectChange{prev}`) -/
 def ensure (s : St) (a : Nat) : St :=
-  if (s.acct a).present then s else (s.push (.createObject a)).setAcct a { present := true }
+  if (s.acct a).live then s
+  else if (s.acct a).present then (s.push (.resetObject a (s.acct a))).setAcct a { present := true }
+  else (s.push (.createObject a)).setAcct a { present := true }
 
 def Acct.empty (p : Acct) : Bool := p.nonce == 0 && p.bal == 0 && p.code == 0 && p.size == 0
 
@@ -107,7 +114,7 @@ def setState (s : St) (a k v : Nat) : St :=
 
 def suicide (vr : Variant) (s : St) (a : Nat) : St :=
   let p := s.acct a
-  if !p.present then s
+  if !p.live then s
   else
     (s.push (.suicide a p.suicided p.bal (if vr.suicideRestoresSize then some p.size else none))).setAcct a
       { p with suicided := true, bal := 0, size := 0 }
@@ -160,6 +167,32 @@ decreasing_by
     intro t e; cases e <;> simp [undo, St.setAcct] <;> (try split) <;> simp
   rw [this]; simp [_h]
 
+/-- the address a journal entry marks dirty (`journalEntry.dirtied`; `resetObjectChange` marks none) -/
+def Entry.dirtied : Entry → Option Nat
+  | .createObject a => some a
+  | .suicide a _ _ _ => some a
+  | .balance a _ => some a
+  | .nonce a _ => some a
+  | .storage a _ _ => some a
+  | .code a _ => some a
+  | .touch a => some a
+  | _ => none
+
+/-- `StateDB.Finalize(true)` at the end of a transaction: every dirty object that self-destructed or is empty is
+marked deleted (the object stays, with its data, until the block is committed; reads no longer see it); the journal
+and the refund counter are cleared - unless the journal is empty, then nothing happens. -/
+def dirty (s : St) (a : Nat) : Bool := s.journal.any (fun e => e.dirtied == some a)
+
+def deletedNow (s : St) (a : Nat) : Bool :=
+  dirty s a && (s.acct a).present && ((s.acct a).suicided || (s.acct a).empty)
+
+def finaliseAcct (s : St) (a : Nat) : Acct :=
+  if deletedNow s a then { s.acct a with deleted := true } else s.acct a
+
+def finalise (s : St) : St :=
+  if s.journal.isEmpty then s
+  else { s with acct := finaliseAcct s, journal := [], refund := 0 }
+
 inductive Mut where
   | createAccount (a : Nat) | setBalance (a v : Nat) | addBalance (a v : Nat) | subBalance (a v : Nat)
   | setNonce (a n : Nat) | setCode (a c : Nat) | setState (a k v : Nat) | suicide (a : Nat)
@@ -198,5 +231,10 @@ def runList (vr : Variant) (s : St) : List Prog → St
   | [] => s
   | p :: ps => runList vr (run vr s p) ps
 end
+
+/-- a block: transactions (each a list of frames / mutators), each followed by `finalise` -/
+def runBlock (vr : Variant) (s : St) : List (List Prog) → St
+  | [] => s
+  | tx :: txs => runBlock vr (finalise (runList vr s tx)) txs
 
 end QuaiVerif.State
